@@ -57,11 +57,13 @@ class KillProxy:
 
 
 def run_history(connect, hist, log, st=None):
-    conn = None
+    conn = lcur = None
+    n6 = 0
     for j, o in enumerate(hist):
         k = o[0]
         if k == 0:
             conn = connect(unstr(o[1]), unstr(o[2]))
+            lcur = conn.cursor()
         else:
             cur = conn.cursor()
             if k == 1:
@@ -72,13 +74,24 @@ def run_history(connect, hist, log, st=None):
             elif k == 3:
                 cur.execute(f"insert into {kname(o[1])} values ({o[2]})")
             elif k == 6:
-                cur.execute("begin")
-                for v in o[2]:
-                    conn.cursor().execute(f"insert into {kname(o[1])} values ({v})")
-                if o[3]:
-                    conn.cursor().execute("commit")
-                elif j < len(hist) - 1:
-                    conn.cursor().execute("rollback")
+                n6 += 1
+                if n6 % 2:
+                    # the way connector programs do it: one long-lived cursor for the statements, the connection's commit()/rollback() to end
+                    lcur.execute("begin")
+                    for v in o[2]:
+                        lcur.execute(f"insert into {kname(o[1])} values ({v})")
+                    if o[3]:
+                        conn.commit()
+                    elif j < len(hist) - 1:
+                        conn.rollback()
+                else:
+                    cur.execute("begin")
+                    for v in o[2]:
+                        conn.cursor().execute(f"insert into {kname(o[1])} values ({v})")
+                    if o[3]:
+                        conn.cursor().execute("commit")
+                    elif j < len(hist) - 1:
+                        conn.cursor().execute("rollback")
             elif k == 8:        # not in the model: statements that fail (they must leave nothing behind, not even an open transaction)
                 if st is not None:
                     st["silent"] = True
